@@ -133,7 +133,7 @@ impl Divan {
         // When run under `cargo-nextest`, it provides `--list --format terse`.
         // We don't currently accept this action under any other circumstances.
         if action.is_list_terse() {
-            self.run_tree_list(&tree, "");
+            self.run_tree_list(&tree, "", None);
             return;
         }
 
@@ -187,17 +187,28 @@ impl Divan {
     /// Emits the entries in `tree` for the purpose of `--list --format terse`.
     ///
     /// This only happens when running under `cargo-nextest` (`NEXTEST=1`).
-    fn run_tree_list(&self, tree: &[EntryTree], parent_path: &str) {
+    fn run_tree_list(
+        &self,
+        tree: &[EntryTree],
+        parent_path: &str,
+        parent_ignore: Option<bool>,
+    ) {
         let mut full_path = String::with_capacity(parent_path.len());
 
         for child in tree {
+            // Like `run_tree`, `ignore` is inherited from the nearest parent
+            // that sets it and is only acted upon for benchmarks themselves.
             let ignore = child
                 .bench_options()
                 .and_then(|options| options.ignore)
-                .unwrap_or_default();
+                .or(parent_ignore);
 
-            if self.should_ignore(ignore) {
-                continue;
+            if matches!(child, EntryTree::Leaf { .. }) {
+                let ignore = self.bench_options.ignore.or(ignore);
+
+                if self.should_ignore(ignore.unwrap_or_default()) {
+                    continue;
+                }
             }
 
             full_path.clear();
@@ -219,7 +230,7 @@ impl Divan {
                     }
                 }
                 EntryTree::Parent { children, .. } => {
-                    self.run_tree_list(children, &full_path)
+                    self.run_tree_list(children, &full_path, ignore)
                 }
             }
         }
